@@ -3,6 +3,8 @@ pub mod lock;
 pub mod phase;
 pub mod repl;
 pub mod rights;
+pub mod serve;
+pub mod trust;
 
 use crate::driver::PropSpec;
 use crate::kit::RunReport;
@@ -15,6 +17,8 @@ pub fn generate(engine: &str, prop: &str, seed: u64, thorough: bool) -> Trace {
         "rights" => rights::generate(seed, prop, thorough),
         "lock" => lock::generate(seed, prop, thorough),
         "phase" => phase::generate(seed, prop, thorough),
+        "serve" => serve::generate(seed, prop, thorough),
+        "trust" => trust::generate(seed, prop, thorough),
         _ => panic!("unknown engine {engine}"),
     }
 }
@@ -26,6 +30,8 @@ pub fn directed(engine: &str, prop: &str) -> Vec<Trace> {
         "rights" => rights::directed(prop),
         "lock" => lock::directed(prop),
         "phase" => phase::directed(prop),
+        "serve" => serve::directed(prop),
+        "trust" => trust::directed(prop),
         _ => vec![],
     }
 }
@@ -37,6 +43,8 @@ pub fn execute(trace: &Trace, keep_log: bool) -> (RunReport, Vec<String>) {
         "rights" => rights::execute(trace, keep_log),
         "lock" => lock::execute(trace, keep_log),
         "phase" => phase::execute(trace, keep_log),
+        "serve" => serve::execute(trace, keep_log),
+        "trust" => trust::execute(trace, keep_log),
         e => panic!("unknown engine {e}"),
     }
 }
@@ -175,7 +183,7 @@ pub fn specs() -> Vec<PropSpec> {
         },
         PropSpec {
             id: "C20",
-            engine: "lock",
+            engine: "lock,trust",
             budget_s: (40, 600),
             level: "exploration",
             rule: "the real RoomLockService actor (limit 1-2) and 1-3 abstract connections x 1-3 rooms; the seeded schedule orders lock requests (new peer, repeated and extended requests while waiting, overlapping sets), releases, stray and double unlocks, connection ends and receivers dropped while waiting, up to 40 (thorough: 60) messages; the actor is single-threaded, so the message order is its schedule; a run is non-trivial if at least one lock was granted; distinct = distinct schedule signature (message kinds, actors, grants observed)",
@@ -198,6 +206,37 @@ pub fn specs() -> Vec<PropSpec> {
             ],
             real: repl_real,
             stub: &[],
+            batch: 1,
+        },
+        PropSpec {
+            id: "C08",
+            engine: "serve",
+            budget_s: (50, 600),
+            level: "exploration",
+            rule: "honest server V with 2-4 rooms and a requester M whose membership differs per room (member, former member, never member, admin only, user-admin only) and changes while connected; M talks to V's real connection services (handshake, InboundQueryService, LocalPeerService event loop) through the simulated transport: every request kind, naming rooms and row ids of rooms it does and does not belong to, before and after the identity proof, before and after its room list, interleaved with membership changes and writes on V; every answer is decoded and must only carry data of rooms M is a member of at V's date; distinct = distinct schedule signature (request kinds, membership classes, answers)",
+            assumptions: &[
+                "membership at V's date is read from V's own in-memory room (is_user_valid_at); the meaning of a room is C10's subject",
+                "M answers V's own requests with errors (V's pulling side is inert in this engine)",
+            ],
+            real: &[
+                "InboundQueryService task and process_inbound", "LocalPeerService::start (handshake, event loop, process_local_event)", "QueryService", "RoomLockService",
+                "database service, authorisation actor, event service",
+            ],
+            stub: &["QUIC endpoint / frames", "PeerConnectionService loop (mailbox and local-event forwarding done by the simulator exactly as process_event does)", "PeerManager"],
+            batch: 1,
+        },
+        PropSpec {
+            id: "C19",
+            engine: "trust",
+            budget_s: (50, 600),
+            level: "exploration",
+            rule: "3-4 real nodes, each with its real connection loops (LocalPeerService::start, InboundQueryService, QueryService), a real PeerManager on a stub endpoint and a real lock service; invitations created, accepted (intact, truncated, random, bit-flipped), used between honest nodes with every stream relayed message by message, offered again and after restarts; an adversary holding only its own identities opens connections on a victim with the token of an allowed peer or of an invitation and answers the identity challenge in 8 ways (own key, wrong key, replayed answer of another connection, valid proof by another allowed peer, malformed peer row, signature over other bytes, no answer -> timeout, answer after the timeout); trusted = key bound, Ready sent, reported connected, invitation consumed or rooms served; distinct = distinct schedule signature",
+            assumptions: &[
+                "for an invitation the expected key is any key the remote proves on this connection's challenge (the invitee is unknown by design); for an allowed peer it is that peer's key",
+                "the election between two QUIC connections of one pair (PeerManager::add_connection) needs quinn objects and does not run",
+            ],
+            real: &["LocalPeerService::start / initialise_connection", "InboundQueryService", "QueryService", "PeerManager (tokens, invitations, allowed peers)", "RoomLockService", "database service"],
+            stub: &["DiscretEndpoint (struct around a simulator-owned channel)", "QUIC / multicast / beacon", "PeerConnectionService loop (its message handling is replayed by the simulator with the real PeerManager)"],
             batch: 1,
         },
     ]
